@@ -93,7 +93,6 @@ def four_momentum_symbols(kin_exprs) -> list:
 
     syms = set()
     for e in kin_exprs:
-        syms |= {s for s in e.free_symbols if isinstance(s, ArraySymbol)}
         syms |= set(e.atoms(ArraySymbol))
     return sorted(syms, key=lambda s: int(str(s)[1:]))
 
@@ -115,8 +114,10 @@ class Kinematics:
         self.exprs = exprs
         self.momenta = four_momentum_symbols(exprs)
         other = set()
+        momentum_names = {str(m) for m in self.momenta}
         for e in exprs:
-            other |= {s for s in e.free_symbols if s not in self.momenta}
+            # (the name of an ArraySymbol shows up as a plain Symbol in free_symbols)
+            other |= {s for s in e.free_symbols if str(s) not in momentum_names}
         self.other_free = sorted(other, key=str)
         self._fn = sp.lambdify(self.momenta, exprs, "numpy", cse=cse) if not self.other_free else None
         self._sp = sp
